@@ -3,6 +3,7 @@ import VlsModel.Gen.FnSweep
 import VlsModel.Gen.FnChannel
 import VlsModel.Gen.FnTxUtil
 import VlsModel.Gen.FnHtlcTx
+import VlsModel.Gen.FnOnchainWrap
 import VlsModel.Lemmas.NodeWalletFn
 import VlsModel.Lemmas.Sweep
 import VlsModel.Lemmas.FnGen
@@ -824,5 +825,59 @@ theorem C09_fn_is_anchors (ct : CommitmentType) :
 theorem C09_fn_is_zero_fee_htlc (ct : CommitmentType) :
     Gen.FnChannel.ChannelSetup.is_zero_fee_htlc { commitment_type := toCt ct } = ct.isZeroFee := by
   cases ct <;> rfl
+
+/-! ## Round 9: the `OnchainValidator` wrapper (`vls-core/src/policy/onchain_validator.rs`, `Gen/FnOnchainWrap.lean`)
+
+vlsd installs `OnchainValidatorFactory` by default: every sweep / HTLC validation reaches `SimpleValidator` through these
+forwarding methods.  Each is proved to be the inner validator's method **of the same name** on the same arguments, for every
+inner validator `F`.  The externals are passed by name: a wrapper that forwards to another method with the same signature
+(`validate_justice_sweep` → `inner.validate_delayed_sweep`) has another parameter name and the statement no longer
+elaborates.  The `_simple` corollaries compose with the ties above: wrapper ∘ regenerated `SimpleValidator` = the model. -/
+section OnchainWrap
+open VlsModel.Gen.FnOnchainWrap (OnchainValidator)
+
+variable {V W S C T P R H K G E : Type}
+
+theorem C09_fn_onchain_validate_delayed_sweep (F : V → W → S → C → T → Nat → Nat → P → Rs.M Unit)
+    (v : V) (w : W) (s : S) (c : C) (tx : T) (i a : Nat) (p : P) :
+    OnchainValidator.validate_delayed_sweep (ext_inner_validate_delayed_sweep := F) ⟨v⟩ w s c tx i a p = F v w s c tx i a p := rfl
+
+theorem C09_fn_onchain_validate_justice_sweep (F : V → W → S → C → T → Nat → Nat → P → Rs.M Unit)
+    (v : V) (w : W) (s : S) (c : C) (tx : T) (i a : Nat) (p : P) :
+    OnchainValidator.validate_justice_sweep (ext_inner_validate_justice_sweep := F) ⟨v⟩ w s c tx i a p = F v w s c tx i a p := rfl
+
+theorem C09_fn_onchain_validate_counterparty_htlc_sweep (F : V → W → S → C → T → R → Nat → Nat → P → Rs.M Unit)
+    (v : V) (w : W) (s : S) (c : C) (tx : T) (r : R) (i a : Nat) (p : P) :
+    OnchainValidator.validate_counterparty_htlc_sweep (ext_inner_validate_counterparty_htlc_sweep := F) ⟨v⟩ w s c tx r i a p
+      = F v w s c tx r i a p := rfl
+
+theorem C09_fn_onchain_validate_htlc_tx (F : V → S → C → Bool → H → Nat → Rs.M Unit)
+    (v : V) (s : S) (c : C) (isCp : Bool) (h : H) (feerate : Nat) :
+    OnchainValidator.validate_htlc_tx (ext_inner_validate_htlc_tx := F) ⟨v⟩ s c isCp h feerate = F v s c isCp h feerate := rfl
+
+theorem C09_fn_onchain_decode_and_validate_htlc_tx (F : V → Bool → S → K → T → R → Nat → R → Rs.M (Nat × H × G × E))
+    (v : V) (isCp : Bool) (s : S) (k : K) (tx : T) (r : R) (amount : Nat) (ws : R) :
+    OnchainValidator.decode_and_validate_htlc_tx (ext_inner_decode_and_validate_htlc_tx := F) ⟨v⟩ isCp s k tx r amount ws
+      = F v isCp s k tx r amount ws := rfl
+
+/-- wrapper ∘ regenerated `SimpleValidator::validate_justice_sweep` = `signJusticeSweep` -/
+theorem C09_fn_onchain_validate_justice_sweep_simple (v : SimpleValidator) (d : Bool) (tx : SweepTx) (ins : List GTxIn) (hins : InsOf tx ins)
+    (input amount h delay : Nat) (hi : input < tx.nInputs) :
+    rel (OnchainValidator.validate_justice_sweep
+          (ext_inner_validate_justice_sweep := SimpleValidator.validate_justice_sweep (ext_can_spend := canSpendE) (ext_allowlist_contains := allowE) (policy_filter_err := filt d) (ext_height_from_consensus := heightE) (ext_is_satisfied_by_height := satisfiedE))
+          ⟨v⟩ () { counterparty_selected_contest_delay := delay } { current_height := h } (toTx tx ins) input amount ())
+      = signJusticeSweep d tx input h :=
+  C09_fn_validate_justice_sweep v d tx ins hins input amount h delay hi
+
+/-- wrapper ∘ regenerated `SimpleValidator::validate_delayed_sweep` = `signDelayedSweep` behind its front checks -/
+theorem C09_fn_onchain_validate_delayed_sweep_simple (v : SimpleValidator) (d : Bool) (tx : SweepTx) (ins : List GTxIn) (hins : InsOf tx ins)
+    (input amount h delay : Nat) (hi : input < tx.nInputs) :
+    rel (OnchainValidator.validate_delayed_sweep
+          (ext_inner_validate_delayed_sweep := SimpleValidator.validate_delayed_sweep (ext_can_spend := canSpendE) (ext_allowlist_contains := allowE) (policy_filter_err := filt d) (ext_height_from_consensus := heightE) (ext_is_satisfied_by_height := satisfiedE))
+          ⟨v⟩ () { counterparty_selected_contest_delay := delay } { current_height := h } (toTx tx ins) input amount ())
+      = signDelayedSweep d tx input true h delay :=
+  C09_fn_validate_delayed_sweep v d tx ins hins input amount h delay hi
+
+end OnchainWrap
 
 end VlsModel.Props.C09Fn
